@@ -4,6 +4,7 @@ import (
 	"reflect"
 
 	"github.com/karagenc/socket.io-go/internal/sync"
+	"github.com/karagenc/socket.io-go/internal/verifhook"
 
 	"github.com/karagenc/socket.io-go/adapter"
 	"github.com/karagenc/socket.io-go/parser"
@@ -398,6 +399,7 @@ func (e *handlerStore[T]) forEach(f func(handler T), concurrent bool) {
 	}
 	if concurrent {
 		go func() {
+			verifhook.Point("handlerStore.forEach:async")
 			for _, handler := range handlers {
 				f(handler)
 			}
